@@ -345,7 +345,6 @@ func (c *Ctx) isEmptyRefLit(e ast.Expr) bool {
 
 var _ = cfg.New
 
-
 // foundThroughHelper: `return (*L)(p).value, true` where p is the result of a library function F,
 // the return is dominated by p != nil, and F returns a non-nil pointer only under its own
 // successful full-key comparison (with the stored form restoreKey hands out).
